@@ -78,6 +78,8 @@ CheckDoc(r, rec) ==
       ELSE IF rec.crashed = 2 THEN Fail(r, 0, "snapshot_crashed", "")
       ELSE /\ (\A j \in 1..Len(rec.T) : CheckTime(r, rec, N, iv, spec, j))
            /\ IF rec.kind = "corrupt" THEN Chk(rec.logs > rec.logs_base, r, 0, "ignored_attribute_not_logged", "") ELSE TRUE
+           \* foreign attributes are legal in TTML: no report is demanded for an attribute outside the vocabulary, it is counted
+           /\ IF rec.kind = "unknown" /\ rec.logs <= rec.logs_base THEN PrintT(<<"NOTE", r, "unknown_attribute_not_reported">>) ELSE TRUE
 
 CheckForms(r, rec) ==
   LET it == rec.items IN
